@@ -131,6 +131,7 @@ def one_run(cfg, outdir):
         evals = int(ns.model.likelihood_evaluations)
         parts["counts"] = h(np.array([evals, int(ns.iteration)], dtype=np.int64))
         return {"parts": parts, "evals": evals, "iteration": int(ns.iteration),
+                "requested_seed": cfg["seed"], "recorded_seed": None if ns.seed is None else int(ns.seed),
                 "vectorised": bool(getattr(model, "_vectorised_likelihood", None)), "n_pool": getattr(model, "n_pool", None),
                 **extra}
     finally:
